@@ -178,7 +178,7 @@ def check(ctx):
             ctx.require(lib.err_propagates(mk, h), "R-MUST", "call_result_size_limit:propagate",
                         "Err propagated", "handle_limit_exceeding result not propagated in make_exec_ctx")
             # dominance over ExecutionCtx::new: every path to ExecutionCtx::new passes the any() evaluation
-            news = mk.calls_to("ExecutionCtx::<'ctx>::new") or mk.calls_to(lambda c: c.path.endswith("ExecutionCtx::new") or "ExecutionCtx" in c.path and c.path.endswith("::new"))
+            news = mk.calls_to("ExecutionCtx::new")
             ctx.floor("R-GUARD", "ExecutionCtx::new in make_exec_ctx", len(news), 1)
             for n in news:
                 ctx.require(mk.dominates(a.bb, n.bb), "R-GUARD", "call_result_size_limit:dominates-ctx",
